@@ -282,6 +282,12 @@ def Tok.need (t : Tok) (rem : Int) : Option Int :=
   | .stretchy _ => some rem
   | .var _ => none
 
+/-- A token whose length is still open when the dtype is created ("stretchy"). -/
+def Tok.isOpen : Tok → Bool
+  | .stretchy .bool => false
+  | .stretchy _ => true
+  | _ => false
+
 /-- SPEC of `readlist` without a stretchy token: the single reads one after the other (`pad` values dropped). -/
 def readSeq (s : Stream) : List Tok → Except Err (List Val × Int)
   | [] => .ok ([], s.pos)
